@@ -76,7 +76,10 @@ package client
 //@   makechan 0 tag streamId class client.handlers
 //@   atcall[C01.request_envelope C06.unary_request C05.fresh_id] (types.RpcReadWriter).Write :
 //@     | arg2 != nil && arg2.Id == streamId && arg2.Header == header && arg2.Body == body && arg2.Status == nil && arg2.Trailer == nil && arg2.Reset_ == nil && arg1 == ctx
-//@   atcall[C05.id_from_atomic_counter] client.(*RpcMultiplexer).registerHandler : arg1 == streamId && streamId == lastret("sync/atomic.AddUint64")
+//@   atcall[C05.id_from_atomic_counter C01.id_from_atomic_counter] client.(*RpcMultiplexer).registerHandler : arg1 == streamId && streamId == lastret("sync/atomic.AddUint64")
+//@   atcall[C14.reply_queue_has_room C11.reply_queue_has_room C01.reply_queue_has_room] client.(*RpcMultiplexer).registerHandler : cap(arg2) == 1
+//@   atcall[C05.counter_only_incremented] sync/atomic.AddUint64 : arg1 == 1
+//@   ensures[C05.one_id_per_call C01.one_id_per_call] ncalls("sync/atomic.AddUint64") <= old(ncalls("sync/atomic.AddUint64")) + 1
 //@   ensures[C06.unary_request_once C01.one_request] ncalls("(types.RpcReadWriter).Write") <= old(ncalls("(types.RpcReadWriter).Write")) + 1
 //@   ensures[C14.released C05.released] bound("streamId") ==> !(streamId in rm.handlers)
 //@   ensures[C13.success_only_with_data C03.result_wellformed C09.no_fabricated_success] result.1 == nil ==> result.0 != nil
@@ -90,7 +93,10 @@ package client
 //@   inline
 //@   nopanic[C13.nopanic C14.nopanic]
 //@   makechan 0 tag streamId class client.handlers
-//@   atcall[C05.id_from_atomic_counter] client.(*RpcMultiplexer).registerHandler : arg1 == streamId && streamId == lastret("sync/atomic.AddUint64")
+//@   atcall[C05.id_from_atomic_counter C02.id_from_atomic_counter] client.(*RpcMultiplexer).registerHandler : arg1 == streamId && streamId == lastret("sync/atomic.AddUint64")
+//@   atcall[C14.reply_queue_has_room C11.reply_queue_has_room] client.(*RpcMultiplexer).registerHandler : cap(arg2) == 1
+//@   atcall[C05.counter_only_incremented] sync/atomic.AddUint64 : arg1 == 1
+//@   ensures[C05.one_id_per_call] ncalls("sync/atomic.AddUint64") <= old(ncalls("sync/atomic.AddUint64")) + 1
 //@   ensures[C09.fail_fast C14.nothing_left_on_error] result.3 != nil ==> result.1 == nil && result.2 == nil && (bound("streamId") ==> !(streamId in rm.handlers))
 //@   ensures[C06.no_write_on_open_of_reader] ncalls("(types.RpcReadWriter).Write") == old(ncalls("(types.RpcReadWriter).Write"))
 //@   ensures[C05.fresh_registration] result.3 == nil ==> result.1 != nil && result.2 != nil && result.0 in rm.handlers && tag(rm.handlers[result.0]) == result.0
@@ -160,6 +166,8 @@ package client
 //@   atcall[C02.received_body_decoded] (google.golang.org/grpc/encoding.CodecV2).Unmarshal : bound("body") && body != nil && bufContent(arg1[0]) == body.Data && arg2 == m
 //@   ensures[C13.success_only_with_data C02.success_only_with_data] result == nil ==> bound("ok") && ok && ncalls("(google.golang.org/grpc/encoding.CodecV2).Unmarshal") == old(ncalls("(google.golang.org/grpc/encoding.CodecV2).Unmarshal")) + 1
 //@   ensures[C09.closed_means_error] bound("ok") && !ok ==> result != nil
+//@   atcall[C02.no_spurious_cancel C07.ctx_status_only_while_running] client.toStatusError :
+//@     | ncalls("call:client.(*clientStream).readErrorIfDone") >= old(ncalls("call:client.(*clientStream).readErrorIfDone")) + 2 && bound("done") && !done
 
 //@ func client.NewStream
 //@   nopanic[C13.nopanic]
@@ -169,8 +177,24 @@ package client
 //@   ensures[C06.no_write_on_creation] ncalls("(types.RpcReadWriter).Write") == old(ncalls("(types.RpcReadWriter).Write"))
 //@   ensures[C14.one_reader C02.one_reader] ncalls("go:(*github.com/avos-io/goat/internal/client.clientStream).readLoop") == old(ncalls("go:(*github.com/avos-io/goat/internal/client.clientStream).readLoop")) + 1
 
+// teardown closure of a client stream: reset when asked, always unregister and cancel
+//@ func client.NewStream$1
+//@   nopanic[C13.nopanic]
+//@   captures[C07.teardown_wellformed] rw != nil && teardown != nil && cancel != nil
+//@   atcall[C07.reset_shape C06.client_reset_shape] (types.RpcReadWriter).Write : arg2 != nil && arg2.Id == id && arg2.Reset_ != nil && arg2.Reset_.Type == "RST_STREAM"
+//@     | && arg2.Header != nil && arg2.Header.Method == method && arg2.Header.Source == sourceAddress && arg2.Header.Destination == destAddress && arg2.Body == nil && arg2.Trailer == nil && arg2.Status == nil
+//@   ensures[C07.reset_when_asked C06.single_reset] ncalls("(types.RpcReadWriter).Write") == old(ncalls("(types.RpcReadWriter).Write")) + ite(sendRst, 1, 0)
+//@   ensures[C14.teardown_always_unregisters C11.teardown_always_unregisters C07.teardown_always_cancels] ncalls("fnfield:cell.Int.github.com_avos_io_goat_internal_client.NewStream.teardown") == old(ncalls("fnfield:cell.Int.github.com_avos_io_goat_internal_client.NewStream.teardown")) + 1 && done(cancels(cancel))
+
+// deferred closure of the read loop: reset iff the stream ended without a trailer because its context is done
+//@ func client.(*clientStream).readLoop$1
+//@   inline
+//@   atcall[C07.reset_iff_cancelled_without_trailer C06.reset_iff_cancelled_without_trailer] fnfield:H.client.clientStream.teardown : arg0 == (trailer == nil && lastret("(context.Context).Err") != nil)
+//@   atcall[C20.stream_end_reports_terminal_error] (google.golang.org/grpc/stats.Handler).HandleRPC : (arg2.Error != nil) == (rErr != nil && rErr != io.EOF) && (arg2.Error != nil ==> arg2.Error == rErr)
+
 //@ func client.(*clientStream).readLoop
 //@   nopanic[C13.nopanic]
+//@   ctxaware[C11.stream_reader_escapes C07.stream_reader_escapes]
 //@   owns cs.rCh
 //@   requires !closed(cs.rCh)
 //@   requires[C13.latch_armed] cs.header == nil && wg(cs.ready) == 1
